@@ -1220,6 +1220,12 @@ impl Property for C16 {
                         if folds.len() < 2 {
                             folds = vec![((1..n).collect(), vec![0]), ((0..n - 1).collect(), vec![n - 1])];
                         }
+                        // sometimes one fold holds nothing out (more splits than samples, an embargo that eats the whole
+                        // test window): it is still a fold — a model is fitted on its training rows and scored on no rows
+                        if r.chance(0.1) {
+                            let at = r.below(folds.len() as u64) as usize;
+                            folds[at].1.clear();
+                        }
                         c.k = folds.len();
                         if r.chance(0.3) {
                             let len = folds.len();
